@@ -40,13 +40,13 @@ def binary(profile="release"):
     return os.path.join(TDIR, "release" if profile == "release" else "debug", "verif-replay")
 
 
-def run_scenarios(scs, profile="release"):
+def run_scenarios(scs, profile="release", traced=False):
     b = binary(profile)
     with tempfile.NamedTemporaryFile("w", suffix=".json", delete=False, dir=BUILD) as f:
         json.dump(scs, f)
         path = f.name
     try:
-        p = subprocess.run([b, "scenarios", path], stdout=subprocess.PIPE, stderr=subprocess.PIPE, text=True, timeout=600)
+        p = subprocess.run([b, "scenarios-traced" if traced else "scenarios", path], stdout=subprocess.PIPE, stderr=subprocess.PIPE, text=True, timeout=600)
         if p.returncode != 0:
             raise Inconclusive("replayer failed: " + p.stderr[-800:])
         return json.loads(p.stdout)
